@@ -10,9 +10,11 @@ import (
 	"time"
 
 	"github.com/jf-tech/omniparser"
+	"github.com/jf-tech/omniparser/idr"
 
 	"verif/harness/core"
 	"verif/harness/gen"
+	"verif/harness/mon"
 	"verif/harness/omni"
 )
 
@@ -119,6 +121,50 @@ type c14Job struct {
 	serial omni.Transcript
 }
 
+// idLedger watches the node IDs of the trees the goroutines currently hold: node IDs key process-wide and per-record caches, so an ID
+// must never be carried by two live nodes. hold(g, n) replaces what goroutine g holds by the tree n belongs to (nil: nothing).
+type idLedger struct {
+	mu         sync.Mutex
+	owner      map[int64]int
+	mine       map[int][]int64
+	registered int64
+	peak       int
+	dups       []idDup
+}
+
+type idDup struct {
+	id   int64
+	a, b int
+}
+
+func (l *idLedger) hold(g int, n *idr.Node) {
+	l.mu.Lock()
+	defer l.mu.Unlock()
+	for _, id := range l.mine[g] {
+		delete(l.owner, id)
+	}
+	l.mine[g] = l.mine[g][:0]
+	if n == nil {
+		return
+	}
+	var walk func(x *idr.Node)
+	walk = func(x *idr.Node) {
+		if o, taken := l.owner[x.ID]; taken && len(l.dups) < 4 {
+			l.dups = append(l.dups, idDup{x.ID, o, g})
+		}
+		l.owner[x.ID] = g
+		l.mine[g] = append(l.mine[g], x.ID)
+		l.registered++
+		for ch := x.FirstChild; ch != nil; ch = ch.NextSibling {
+			walk(ch)
+		}
+	}
+	walk(mon.RootOf(n))
+	if len(l.owner) > l.peak {
+		l.peak = len(l.owner)
+	}
+}
+
 func runC14(c *core.Ctx) {
 	r := c.R
 	ns := r.Range(2, 4)
@@ -206,6 +252,7 @@ func runC14(c *core.Ctx) {
 	old := runtime.GOMAXPROCS(procs)
 	defer runtime.GOMAXPROCS(old)
 	log := &stampLog{}
+	ledger := &idLedger{owner: map[int64]int{}, mine: map[int][]int64{}}
 	var wg sync.WaitGroup
 	type mismatch struct {
 		g, job, step int
@@ -227,7 +274,8 @@ func runC14(c *core.Ctx) {
 			for _, ji := range order {
 				j := jobs[ji]
 				yr := &yieldReader{data: j.input, r: gr.Fork(), g: g, log: log}
-				got := maskLines(omni.RunAll(schemas[j.schema].s, yr, omni.RunOpts{MaxReads: 3000, ExtraReads: 1, Ext: ext}), schemas[j.schema].format)
+				got := maskLines(omni.RunAll(schemas[j.schema].s, yr, omni.RunOpts{MaxReads: 3000, ExtraReads: 1, Ext: ext,
+					OnRecord: func(n *idr.Node) { ledger.hold(g, n) }}), schemas[j.schema].format)
 				mu.Lock()
 				yields += int64(yr.yield)
 				recs += int64(len(got))
@@ -241,6 +289,13 @@ func runC14(c *core.Ctx) {
 		}(g)
 	}
 	wg.Wait()
+	c.Count("live_node_ids_registered", ledger.registered)
+	c.Count("max:live_node_ids_at_once", int64(ledger.peak))
+	for _, d := range ledger.dups {
+		c.Violate("C14:node-id-shared-by-live-nodes", "two nodes that are live at the same time (in the record trees two goroutines currently hold, or twice in one tree) carry the same node ID",
+			map[string]interface{}{"goroutines": G, "gomaxprocs": procs, "node_id": d.id, "held_by_goroutine": d.a, "also_seen_by_goroutine": d.b})
+		break
+	}
 	c.Count("concurrent_jobs", ran)
 	c.Count("evaluations", ran)
 	c.Count("records_compared", recs)
